@@ -881,6 +881,9 @@ def run_case(ck, s, drv, case, live_cache=None, strict_from=None):
                 ok = False
             else:
                 soft_hits += 1
+                lst = ck.extra.setdefault("search_only_examples", [])
+                if len(lst) < 40:
+                    lst.append({"fault": fault, "op_index": i, "fault_op": fault_op, "op": op["op"], "what": what, "cfg": cfg})
     if nofault:
         if leftover and not (dev["dummy"] >= 50 and any(o["op"] == "open" for o in ops)):
             s.expect(False, {"case": case}, "without any fault the host left bytes of the device unread", leftover, 0)
